@@ -84,6 +84,9 @@ structure KeyFacts (p : Params) (mat : List PolyVec) (s1 s2 t1 t0 : PolyVec) : P
   t1s : ∀ a ∈ t1, T1OK a
   t0s : ∀ a ∈ t0, a.length = 256 ∧ ∀ x ∈ a, -4096 < x ∧ x ≤ 4096
   rel : KeyRel p mat s1 s2 t0 t1
+  /-- t = t1·2^13 + t0 is the representative of A·s1 + s2 with coefficients in [0, q) -/
+  tstd : ∀ r, r < p.k → ∀ j, j < 256 → 0 ≤ (t1.getD r []).getD j 0 * 8192 + (t0.getD r []).getD j 0 ∧
+    (t1.getD r []).getD j 0 * 8192 + (t0.getD r []).getD j 0 < Q
 
 theorem etaI_le (lv : Lvl) : 0 ≤ etaI lv ∧ etaI lv ≤ 4 := by cases lv <;> decide
 
@@ -134,7 +137,7 @@ theorem keygen_facts (p : Params) (hp : p ∈ allParams) (seed rho key : List Na
   rw [← hrho, ← hs1e, ← hs2e, ← ht1e, ← ht0e]
   have htAl : tA.length = p.k := by rw [r5.length.2, hwCl]
   have htl : t.length = p.k := by rw [r6.length, htAl]
-  refine ⟨mat, hme, ⟨hmat, hs1r.1, hs2r.1, by rw [r7.length.1, htl], by rw [r7.length.2, htl], hs1r.2, hs2r.2, ?_, ?_, ?_⟩⟩
+  refine ⟨mat, hme, ⟨hmat, hs1r.1, hs2r.1, by rw [r7.length.1, htl], by rw [r7.length.2, htl], hs1r.2, hs2r.2, ?_, ?_, ?_, ?_⟩⟩
   · exact r7.mid (B := T1OK) (fun a hi lo h3 => ⟨h3.2.length.1.trans h3.1, h3.2.mid (fun _ _ _ hd => ⟨hd.2.2.2.1, hd.2.2.2.2⟩)⟩)
   · exact r7.out (C := fun lo => lo.length = 256 ∧ ∀ x ∈ lo, -4096 < x ∧ x ≤ 4096)
       (fun a hi lo h3 => ⟨h3.2.length.2.trans h3.1, h3.2.out (fun _ _ _ hd => ⟨hd.2.1, hd.2.2.1⟩)⟩)
@@ -152,5 +155,12 @@ theorem keygen_facts (p : Params) (hp : p ∈ allParams) (seed rho key : List Na
     have E_t2 : (El (t.getD r []) i : K) = El (wC.getD r []) i + El (s2'.getD r []) i := by
       rw [El_congr _ _ f6.2 i, El_add _ _ _ (by rw [hwCr.1, hs2r'.1]) f5.2 i]
     rw [← E_t, E_t2, hwCE r hr i hi]
+  · intro r hr j hj
+    have f7 := r7.getD [] [] [] r (by rw [htl]; exact hr)
+    have hstd : Std (t.getD r []) := (r6.right (B := Std) (fun _ _ h => h.1)) _ (getD_mem t r [] (by rw [htl]; exact hr))
+    have g := f7.2.getD 0 0 0 j (by rw [f7.1]; exact hj)
+    have hx := hstd.2 _ (getD_mem (t.getD r []) j 0 (by rw [hstd.1]; exact hj))
+    rw [← g.1]
+    exact hx
 
 end DV.Complete
